@@ -1,6 +1,7 @@
-SPECIFICATION Spec
+SPECIFICATION MCSpec
 CONSTANTS
+  Dev = {}
   Which = "cont3"
-  Cases <- MC_Cases
+  Cases <- NoCases
 INVARIANT ImplSatisfiesProperty
 CHECK_DEADLOCK FALSE
